@@ -76,7 +76,7 @@ def texts(run, tier):
             relayed += len(last)
             if sample is None and r['kind'] == 'MORE':
                 sample = {'replies': r['replies'], 'outputs': r['outs']}
-    if relayed < len(vs) and not run.violations:
+    if relayed < len(vs) and not run.violations and not run.capped:
         raise common.HarnessError('vacuous text dimension: %d verdict/challenge lines for %d variants' % (relayed, len(vs)))
     return {'text_variants': n, 'text_verdict_or_challenge_lines_checked': relayed, 'text_menu': [t[:40] for t in TEXTS], 'account_menu': [a[:40] for a in ACCOUNTS], 'text_sample': sample}
 
